@@ -207,7 +207,7 @@ func (fr *Frame) invoke(ins ssa.Instruction, recv *Val, it types.Type, m *types.
 func (fr *Frame) callFunc(ins ssa.Instruction, fn *ssa.Function, args []*Val, binds []*Val) *Val {
 	vc := fr.vc
 	name := shortFuncName(fn.String())
-	if c := vc.w.contracts[name]; c != nil && binds == nil && (vc.specDepth == 0 || (!c.Inline && onlyGhostAssigns(c))) {
+	if c := vc.w.contracts[name]; c != nil && binds == nil && (vc.specDepth == 0 || !c.Inline) {
 		if !c.Inline && !vc.w.forceInline[name] && (vc.w.unroll == 0 || c.Trusted || fn.Blocks == nil) {
 			vc.used[name] = true
 			return fr.applyContract(ins, fn, c, args)
@@ -221,7 +221,7 @@ func (fr *Frame) callFunc(ins ssa.Instruction, fn *ssa.Function, args []*Val, bi
 		}
 		return m(fr, ins, fn, args)
 	}
-	if fn.Blocks == nil {
+	if fn.Blocks == nil || !vc.w.mayInline(fn) {
 		vc.unsupported(fr, "call of external function without a model: "+fn.String())
 		return fr.havocResult(fn)
 	}
@@ -693,4 +693,29 @@ func onlyGhostAssigns(c *Contract) bool {
 		}
 	}
 	return true
+}
+
+// mayInline: bodies of the verified package (and its closures, wrappers) and a
+// short list of small standard-library functions are verified by inlining;
+// everything else needs a contract or a trusted model.
+func (w *World) mayInline(fn *ssa.Function) bool {
+	pkg := fn.Pkg
+	for p := fn.Parent(); pkg == nil && p != nil; p = p.Parent() {
+		pkg = p.Pkg
+	}
+	if pkg == nil {
+		// synthetic wrappers (bound methods, thunks) of package types
+		if fn.Signature.Recv() != nil || fn.Synthetic != "" {
+			return true
+		}
+		return false
+	}
+	if pkg == w.pkg {
+		return true
+	}
+	switch pkg.Pkg.Path() {
+	case "encoding/binary", "io":
+		return true
+	}
+	return false
 }
